@@ -118,7 +118,9 @@ fn sections() -> Vec<Section> {
     out.push(s);
     // ---- PID controller
     let mut s = Section::new("pid");
-    for (name, syms, depth) in [("exact", crate::c04::exact_syms(), 3usize), ("broad", crate::c04::broad_syms(), 3)] {
+    // "degenerate": legal programs outside the comfortable range - repeated and backward timestamps
+    let degen04 = { use crate::c04::Ev::*; vec![P(0, 1.0), P(0, -2.0), P(S, 3.0), P(-S / 2, 1.0), N(0), Er(0, 1)] };
+    for (name, syms, depth) in [("exact", crate::c04::exact_syms(), 3usize), ("broad", crate::c04::broad_syms(), 3), ("degenerate", degen04, 4)] {
         let n = ipow(syms.len() as u64, depth);
         let mut idx = vec![0usize; depth];
         for gi in 0..4 {
@@ -137,16 +139,18 @@ fn sections() -> Vec<Section> {
         let depth = 4;
         let n = ipow(5, depth);
         let mut idx = vec![0usize; depth];
-        let times: Vec<i64> = (0..depth).map(|k| (k as i64 + 1) * S).collect();
-        for kind in 0..15 {
-            for code in 0..n {
-                decode(code, 5, &mut idx);
-                let h: Vec<crate::c05::Ev> = idx.iter().map(|&i| crate::c05::SYMS[i]).collect();
-                let target = if kind == 4 || kind == 5 { &mut sp } else { &mut s };
-                target.case(format!("{} {}", crate::c05::KIND_NAMES[kind], code), || {
-                    let mut imp = false;
-                    crate::c05::run_full(kind, &h, &times, &mut imp).iter().map(|(u, o)| format!("{}:{}", u, obs_words(o, 3))).collect::<Vec<_>>().join(" | ")
-                });
+        // regular clock, then a clock that repeats a timestamp and steps backwards
+        for (tname, times) in [("", (0..depth).map(|k| (k as i64 + 1) * S).collect::<Vec<i64>>()), ("degenerate-times ", vec![S, S, S / 2, S / 2])] {
+            for kind in 0..15 {
+                for code in 0..n {
+                    decode(code, 5, &mut idx);
+                    let h: Vec<crate::c05::Ev> = idx.iter().map(|&i| crate::c05::SYMS[i]).collect();
+                    let target = if kind == 4 || kind == 5 { &mut sp } else { &mut s };
+                    target.case(format!("{}{} {}", tname, crate::c05::KIND_NAMES[kind], code), || {
+                        let mut imp = false;
+                        crate::c05::run_full(kind, &h, &times, &mut imp).iter().map(|(u, o)| format!("{}:{}", u, obs_words(o, 3))).collect::<Vec<_>>().join(" | ")
+                    });
+                }
             }
         }
     }
@@ -154,7 +158,8 @@ fn sections() -> Vec<Section> {
     out.push(sp);
     // ---- integral / derivative / to-state
     let mut s = Section::new("calculus-streams");
-    for (name, syms, depth) in [("exact", crate::c10::exact_syms(), 3usize), ("broad", crate::c10::broad_syms(), 3)] {
+    let degen10 = { use crate::c10::Ev::*; vec![P(0, 1.0), P(0, -2.0), P(S, 3.0), P(-S / 2, 1.0), N(0), Er(0, 1)] };
+    for (name, syms, depth) in [("exact", crate::c10::exact_syms(), 3usize), ("broad", crate::c10::broad_syms(), 3), ("degenerate", degen10, 4)] {
         let n = ipow(syms.len() as u64, depth);
         let mut idx = vec![0usize; depth];
         for kind in 0..5 {
@@ -169,15 +174,16 @@ fn sections() -> Vec<Section> {
     // ---- command PID
     let mut s = Section::new("command-pid");
     {
-        let syms = crate::c11::syms(false);
-        let depth = 3;
-        let n = ipow(syms.len() as u64, depth);
-        let mut idx = vec![0usize; depth];
-        for init in [crate::c11::TARGETS[0], crate::c11::TARGETS[2], crate::c11::TARGETS[4]] {
-            for code in 0..n {
-                decode(code, syms.len() as u64, &mut idx);
-                let h: Vec<crate::c11::Ev> = idx.iter().map(|&i| syms[i]).collect();
-                s.case(format!("{:?} {}", init, code), || crate::c11::run_real(init, false, &h, 5 * S).iter().map(|(u, o)| format!("{}:{}", u, obs_words(o, 1))).collect::<Vec<_>>().join(" | "));
+        let degen11 = { use crate::c11::Ev::*; vec![P(0, 0), P(0, 1), P(S / 2, 1), P(-S / 2, 0), N(0), Er(0), Set(0), Set(2)] };
+        for (name, syms, depth) in [("regular", crate::c11::syms(false), 3usize), ("degenerate", degen11, 4)] {
+            let n = ipow(syms.len() as u64, depth);
+            let mut idx = vec![0usize; depth];
+            for init in [crate::c11::TARGETS[0], crate::c11::TARGETS[2], crate::c11::TARGETS[4]] {
+                for code in 0..n {
+                    decode(code, syms.len() as u64, &mut idx);
+                    let h: Vec<crate::c11::Ev> = idx.iter().map(|&i| syms[i]).collect();
+                    s.case(format!("{} {:?} {}", name, init, code), || crate::c11::run_real(init, false, &h, 5 * S).iter().map(|(u, o)| format!("{}:{}", u, obs_words(o, 1))).collect::<Vec<_>>().join(" | "));
+                }
             }
         }
     }
